@@ -11,7 +11,8 @@ VERIF = os.path.dirname(os.path.dirname(os.path.abspath(__file__)))
 REPO = os.environ.get("AMC_REPO", "/repo")
 CACHE = os.path.join(VERIF, ".cache")
 # evidence/ describes /repo itself: a run against another tree (AMC_REPO, used to try the checks on seeded changes) writes elsewhere
-EVIDENCE = os.path.join(VERIF, "evidence") if REPO == "/repo" else os.path.join(CACHE, "alt-evidence")
+# (so does a soak run with another generator seed than the registered commands use: VERIF_EVIDENCE_ALT=1)
+EVIDENCE = os.path.join(VERIF, "evidence") if (REPO == "/repo" and not os.environ.get("VERIF_EVIDENCE_ALT")) else os.path.join(CACHE, "alt-evidence")
 REPLAYS = os.path.join(VERIF, "replays")
 NCPU = min(16, os.cpu_count() or 4)
 
